@@ -52,6 +52,7 @@ SIG = {
     "maximize_info": "maximize.solve|info-sign-not-restored",
     "lbfgsb": "L_BFGS_B.solve|result-altered",
     "ls": "LS.solve|result-altered",
+    "ls_default": "LS.solve|default-jacfun-None-raises",
 }
 
 F = Fraction
@@ -99,6 +100,15 @@ def mk_operator(A, form):
     A = np.asarray(A, dtype=float)
     if form == "dense":
         return A
+    if form == "dense-F":                       # Fortran (column-major) order
+        return np.asfortranarray(A)
+    if form == "dense-view":                    # a non-contiguous view into a larger array
+        big = np.zeros((2 * A.shape[0], 2 * A.shape[1]))
+        big[::2, ::2] = A
+        return big[::2, ::2]
+    if form == "dense-int":                     # integer dtype (the entries of these cells are integers)
+        assert np.array_equal(A, np.round(A))
+        return A.astype(np.int64)
     if form == "sparse":
         return spa.csr_matrix(A)
     if form == "fun":
@@ -143,6 +153,19 @@ def mk_operator(A, form):
 
 
 ALIAS_IDENT_FORMS = ["fun-ident-self", "fun-ident-view", "fun-ident-stride", "fun-ident-reshape", "fun-ident-adjself", "fun-ident-fwdself", "fun-ident-adjview"]
+
+
+def lay(v, meta, allow_int=True):
+    """the vector v in the memory layout / dtype of the cell: contiguous float64 (default), a strided view, or int64"""
+    a = np.array(v, dtype=float)
+    ly = meta.get("layout")
+    if ly == "view":
+        big = np.zeros(2 * len(a) + 1)
+        big[1::2] = a
+        return big[1::2]
+    if ly == "int" and allow_int and np.array_equal(a, np.round(a)):
+        return a.astype(np.int64)
+    return a
 
 
 class InputMutated(Exception):
@@ -243,10 +266,12 @@ def _xk_eq(a, b):
 def drive_cgls(meta, maxit, tol):
     S = solver_mod()
     fj = {"A": meta["A"], "b": meta["b"], "x0": meta["x0"], "maxit": maxit, "tol": tol, "shift": meta["shift"]}
-    mat = lambda v: {"A": mk_operator(v["A"], meta["form"]), "b": np.array(v["b"], dtype=float), "x0": np.array(v["x0"], dtype=float),
+    mat = lambda v: {"A": mk_operator(v["A"], meta["form"]), "b": lay(v["b"], meta), "x0": lay(v["x0"], meta, allow_int=False),
                      "maxit": int(v["maxit"]), "tol": v["tol"], "shift": v["shift"]}
+    # optional arguments omitted: CGLS(A, b, x0, maxit) must behave as tol = 1e-6, shift = 0 (the values this cell's meta carries)
+    mk = (lambda v: S.CGLS(v["A"], v["b"], v["x0"], v["maxit"])) if meta.get("omit") else (lambda v: S.CGLS(v["A"], v["b"], v["x0"], v["maxit"], v["tol"], v["shift"]))
     with np.errstate(all="ignore"):
-        (x, k), fin = history_solve(meta, fj, mat, lambda v: S.CGLS(v["A"], v["b"], v["x0"], v["maxit"], v["tol"], v["shift"]),
+        (x, k), fin = history_solve(meta, fj, mat, mk,
                                     {"A": "A", "b": "b", "x0": "x0", "maxit": "maxit", "tol": "tol", "shift": "shift"}, _xk_eq)
     A, b, x0 = fin["A"], fin["b"], fin["x0"]
     _unchanged("b", b, meta["b"]); _unchanged("x0", x0, meta["x0"])
@@ -271,11 +296,20 @@ def drive_pcgls(meta, maxit, tol):
     import scipy.sparse as spa
     S = solver_mod()
     fj = {"A": meta["A"], "b": meta["b"], "x0": meta["x0"], "P": meta["P"], "maxit": maxit, "tol": tol, "shift": meta["shift"]}
-    mat = lambda v: {"A": mk_operator(v["A"], meta["form"]), "b": np.array(v["b"], dtype=float), "x0": np.array(v["x0"], dtype=float),
+    mat = lambda v: {"A": mk_operator(v["A"], meta["form"]), "b": lay(v["b"], meta), "x0": lay(v["x0"], meta, allow_int=False),
                      "P": spa.csc_matrix(np.array(v["P"], dtype=float)), "maxit": int(v["maxit"]), "tol": v["tol"], "shift": v["shift"]}
-    with max_dim_inv(0 if meta["pinv"] == "spsolve" else None), np.errstate(all="ignore"):
+    mdi = meta["max_dim_inv"] if "max_dim_inv" in meta else (0 if meta["pinv"] == "spsolve" else None)
+    with max_dim_inv(mdi), np.errstate(all="ignore"):
+        if "max_dim_inv" in meta:
+            # exact-threshold sizes: the explicit inverse is used iff dim < MAX_DIM_INV
+            pv = mat(fj)
+            probe = S.PCGLS(pv["A"], pv["b"], pv["x0"], pv["P"], 1, 1e-6, 0)
+            if bool(probe._explicitPinv) != (len(meta["x0"]) < meta["max_dim_inv"]):
+                raise HistoryMismatch("THRESHOLD: PCGLS with dim %d and MAX_DIM_INV %d chose explicitPinv=%s" % (len(meta["x0"]), meta["max_dim_inv"], probe._explicitPinv))
+    with max_dim_inv(mdi), np.errstate(all="ignore"):
         # PCGLS keeps its inputs in underscore attributes (and caches P^-1 in the constructor): only b, x0, tol, maxit are re-assigned
-        (x, k), fin = history_solve(meta, fj, mat, lambda v: S.PCGLS(v["A"], v["b"], v["x0"], v["P"], v["maxit"], v["tol"], v["shift"]),
+        mkp = (lambda v: S.PCGLS(v["A"], v["b"], v["x0"], v["P"], v["maxit"])) if meta.get("omit") else (lambda v: S.PCGLS(v["A"], v["b"], v["x0"], v["P"], v["maxit"], v["tol"], v["shift"]))
+        (x, k), fin = history_solve(meta, fj, mat, mkp,
                                     {"b": "_b", "x0": "_x0", "maxit": "_maxit", "tol": "_tol"}, _xk_eq)
     A, b, x0, P = fin["A"], fin["b"], fin["x0"], fin["P"]
     _unchanged("b", b, meta["b"]); _unchanged("x0", x0, meta["x0"]); _unchanged("P", P, meta["P"])
@@ -309,9 +343,12 @@ def mk_bound(bd):
 def drive_fista(meta, maxit, abstol):
     S = solver_mod()
     fj = {"A": meta["A"], "b": meta["b"], "x0": meta["x0"], "prox": meta["prox"], "maxit": maxit, "t": meta["t"], "abstol": abstol, "adaptive": meta["adaptive"]}
-    mat = lambda v: {"A": mk_operator(v["A"], meta["form"]), "b": np.array(v["b"], dtype=float), "x0": np.array(v["x0"], dtype=float),
+    mat = lambda v: {"A": mk_operator(v["A"], meta["form"]), "b": lay(v["b"], meta), "x0": lay(v["x0"], meta),
                      "prox": mk_prox({"prox": v["prox"]}), "maxit": int(v["maxit"]), "t": v["t"], "abstol": v["abstol"], "adaptive": v["adaptive"]}
-    (x, k), fin = history_solve(meta, fj, mat, lambda v: S.FISTA(v["A"], v["b"], v["x0"], v["prox"], maxit=v["maxit"], stepsize=v["t"], abstol=v["abstol"], adaptive=v["adaptive"]),
+    # optional arguments omitted: FISTA(A, b, x0, proximal, maxit=j) must behave as stepsize = 1, abstol = 1e-14, adaptive = True
+    mkf = ((lambda v: S.FISTA(v["A"], v["b"], v["x0"], v["prox"], maxit=v["maxit"])) if meta.get("omit") else
+           (lambda v: S.FISTA(v["A"], v["b"], v["x0"], v["prox"], maxit=v["maxit"], stepsize=v["t"], abstol=v["abstol"], adaptive=v["adaptive"])))
+    (x, k), fin = history_solve(meta, fj, mat, mkf,
                                 {"A": "A", "b": "b", "x0": "x0", "prox": "proximal", "maxit": "maxit", "t": "stepsize", "abstol": "abstol", "adaptive": "adaptive"}, _xk_eq)
     A, b, x0 = fin["A"], fin["b"], fin["x0"]
     _unchanged("b", b, meta["b"]); _unchanged("x0", x0, meta["x0"])
@@ -398,6 +435,50 @@ def drive_lm_trace(meta, K):
         JtJ = JtJ.toarray() if hasattr(JtJ, "toarray") else np.asarray(JtJ)
         Ms.append((float(M[0, 0]), bool(M[0, 0] == JtJ[0, 0]), float(M[0, 0] - JtJ[0, 0])))
     return xs, Ms
+
+
+def lm3_funcs(p, sparse=False):
+    """three unknowns (n > 2): chained Rosenbrock residuals  sigma * [a (x1 - x0^2), a (x2 - x1^2), b - x0, c x0 x2 - d]"""
+    import scipy.sparse as spa
+    a, b, c, d, sg = p["a"], p["b"], p["c"], p["d"], p.get("sigma", 1.0)
+    Ff = lambda x: sg * np.array([a * (x[1] - x[0] ** 2), a * (x[2] - x[1] ** 2), b - x[0], c * x[0] * x[2] - d], dtype=float)
+    Jd = lambda x: sg * np.array([[-2 * a * x[0], a, 0.0], [0.0, -2 * a * x[1], a], [-1.0, 0.0, 0.0], [c * x[2], 0.0, c * x[0]]], dtype=float)
+    Jf = (lambda x: spa.csr_matrix(Jd(x))) if sparse else Jd
+    return Ff, Jf
+
+
+def drive_lm_trace2(meta, K):
+    """two unknowns: x_0..x_k and the entries (M11, M12, M22) of J^T J + nu I of every iteration, plus `nu == 0`; ng0 = |g_0| is computed
+    here with numpy (certificate for the model, which checks ng0^2 = |g_0|^2)"""
+    S = solver_mod()
+    Ff, Jf = lm2_funcs(meta["p"])
+    x0 = np.array(meta["x0"], dtype=float)
+    xs = []
+    for i in range(K + 1):
+        with np.errstate(all="ignore"):
+            x, info = S.LM(Ff, x0.copy(), Jf, maxit=i, gradtol=0.0, nu0=meta["nu0"], sparse=False).solve()
+        if int(info["nfev"]) < i or not np.all(np.isfinite(x)):
+            break
+        xs.append(fl(x))
+    rec = _SolveRecorder(S.LA)
+    with patched(S, "LA", rec), np.errstate(all="ignore"):
+        S.LM(Ff, x0.copy(), Jf, maxit=len(xs) - 1, gradtol=0.0, nu0=meta["nu0"], sparse=False).solve()
+    Ms = []
+    for i, (M, g) in enumerate(rec.calls[:len(xs) - 1]):
+        J = Jf(np.array(xs[i]))
+        JtJ = J.T @ J
+        Ms.append((float(M[0, 0]), float(M[0, 1]), float(M[1, 1]), bool(M[0, 0] == JtJ[0, 0] and M[1, 1] == JtJ[1, 1])))
+    ng0 = float(np.sqrt(np.sum((Jf(x0).T @ Ff(x0)) ** 2)))
+    return xs, Ms, ng0
+
+
+def case_lm_trace2(meta):
+    xs, Ms, ng0 = drive_lm_trace2(meta, meta["K"])
+    pp = meta["p"]
+    expr = "check_lm_trace2_run %s %s %s %s %s %s %s %s %s %s" % (
+        cq(pp.get("sigma", 1.0)), cq(pp["a"]), cq(pp["b"]), cq(pp["c"]), cq(pp["d"]), cqvec(meta["x0"]), cq(meta["nu0"]), cq(ng0),
+        clist([cqvec(x) for x in xs]), clist(["(%s, %s, %s, %s)" % (cq(a), cq(b_), cq(c), cbool(z)) for a, b_, c, z in Ms]))
+    return Case(expr=expr, meta=meta, cell="lm/trace/n2/%s" % meta["cell"], kind="EXACT", trivial=len(xs) < 2)
 
 
 def lm_branch_labels(meta, xs, Ms):
@@ -791,7 +872,7 @@ def case_fista_conv(meta):
 
 def case_prox(meta, rng):
     S = solver_mod()
-    x = np.array(meta["x"], dtype=float)
+    x = np.array(meta["x"], dtype=np.int64 if meta.get("dtype") == "int" else float)
     if meta["op"] == "prox_l1":
         xin = x.copy()
         p = fl(S.ProximalL1(xin, meta["gamma"]))
@@ -854,6 +935,9 @@ def case_lm_conv(meta):
     if meta["op"] == "lm_conv1":
         Ff, Jf = quad_funcs(meta["co"], meta["sparse"], buffer=meta.get("callable") == "buffer")
         x0 = np.array([meta["x0"]], dtype=float)
+    elif meta["op"] == "lm_conv3":
+        Ff, Jf = lm3_funcs(meta["p"], meta.get("sparse", False))
+        x0 = np.array(meta["x0"], dtype=float)
     else:
         Ff, Jf = lm2_funcs(meta["p"])
         x0 = np.array(meta["x0"], dtype=float)
@@ -867,12 +951,13 @@ def case_lm_conv(meta):
     else:
         fj = {"p": meta["p"], "x0": meta["x0"], "maxit": meta["maxit"], "gradtol": meta["gradtol"], "nu0": nu0v}
         def mat(v):
-            F_, J_ = lm2_funcs(v["p"])
+            F_, J_ = lm3_funcs(v["p"], meta.get("sparse", False)) if meta["op"] == "lm_conv3" else lm2_funcs(v["p"])
             return {"F": F_, "J": J_, "x0": np.array(v["x0"], dtype=float), "maxit": int(v["maxit"]), "gradtol": v["gradtol"], "nu0": v["nu0"]}
     lm_eq = lambda a, b_: (np.array_equal(np.asarray(a[0], dtype=float), np.asarray(b_[0], dtype=float), equal_nan=True) and int(a[1]["nfev"]) == int(b_[1]["nfev"]))
     with np.errstate(all="ignore"):
         (x, info), fin = history_solve(meta, fj, mat,
-                                       lambda v: S.LM(v["F"], v["x0"], v["J"], maxit=v["maxit"], gradtol=v["gradtol"], nu0=v["nu0"], sparse=meta.get("sparse", False)),
+                                       (lambda v: S.LM(v["F"], v["x0"], v["J"])) if meta.get("omit") else
+                                       (lambda v: S.LM(v["F"], v["x0"], v["J"], maxit=v["maxit"], gradtol=v["gradtol"], nu0=v["nu0"], sparse=meta.get("sparse", False))),
                                        {"F": "A", "J": "jacfun", "x0": "x0", "maxit": "maxit", "gradtol": "gradtol", "nu0": "nu0"}, lm_eq)
     x0 = fin["x0"]
     _unchanged("x0", x0, x0_in)
@@ -1062,10 +1147,17 @@ def case_ls(meta):
         geom = cuqi.geometry.Continuous1D(2)
         x0 = cuqi.array.CUQIarray(x0, geometry=geom)
     rec = Recorder(S.least_squares)
-    jac = Jf if meta["with_jac"] else "2-point"
+    jac = Jf if meta["with_jac"] is True else "2-point"
     h = meta.get("history")
     with patched(S, "least_squares", rec):
-        if not h:
+        if meta["with_jac"] == "default":
+            # every optional argument omitted: LS(func, x0) -- documented: "Jac: optional. If None, then the solver approximates the Jacobian"
+            try:
+                sol, info = S.LS(Ff, x0).solve()
+            except ValueError as e:
+                return Case(expr="false", meta=meta, cell="ls/defaults", kind="DECISION", signature=SIG["ls_default"],
+                            impl_fail="LS(func, x0).solve() with the documented default jacfun=None raises %r (SciPy's least_squares has no jac=None)" % str(e)[:120])
+        elif not h:
             sol, info = S.LS(Ff, x0, jacfun=jac, method=meta["method"], loss=meta["loss"], tol=meta["tol"], maxit=meta["maxit"]).solve()
         else:
             first = dict({"x0": meta["x0"], "method": meta["method"], "loss": meta["loss"], "tol": meta["tol"], "maxit": meta["maxit"]}, **h.get("first", {}))
@@ -1077,7 +1169,7 @@ def case_ls(meta):
     a, k, res = rec.calls[-1]
     same = (np.array_equal(np.asarray(sol), res["x"]) and np.array_equal(info["func"], res["fun"]) and np.array_equal(info["jac"], res["jac"])
             and info["nfev"] == res["nfev"] and info["success"] == res["success"] and info["message"] == res["message"])
-    args_ok = (a[0] is Ff and np.array_equal(np.asarray(a[1]), np.array(meta["x0"], dtype=float)) and k.get("jac") is jac and k.get("method") == meta["method"]
+    args_ok = (a[0] is Ff and np.array_equal(np.asarray(a[1]), np.array(meta["x0"], dtype=float)) and (k.get("jac") is jac or (isinstance(jac, str) and k.get("jac") == jac)) and k.get("method") == meta["method"]
                and k.get("loss") == meta["loss"] and k.get("xtol") == meta["tol"] and k.get("max_nfev") == int(meta["maxit"]))
     typ_ok = (isinstance(sol, cuqi.array.CUQIarray) and sol.geometry is geom) if geom is not None else type(sol) is np.ndarray
     fail = None if (same and args_ok and typ_ok) else "LS: result/arguments altered (same=%s args=%s type=%s)" % (same, args_ok, typ_ok)
@@ -1095,7 +1187,7 @@ def case_ls(meta):
 
 BUILDERS = {
     "cgls_iters": case_cgls_iters, "cgls_solve": case_cgls_solve, "pcgls_iters": case_pcgls_iters, "pcgls_solve": case_pcgls_solve,
-    "fista_runs": case_fista_runs, "fista_conv": case_fista_conv, "lm_iters": case_lm_iters, "lm_trace": case_lm_trace, "lm_conv1": case_lm_conv, "lm_conv2": case_lm_conv,
+    "fista_runs": case_fista_runs, "fista_conv": case_fista_conv, "lm_iters": case_lm_iters, "lm_trace": case_lm_trace, "lm_trace2": case_lm_trace2, "lm_conv1": case_lm_conv, "lm_conv2": case_lm_conv, "lm_conv3": case_lm_conv,
     "minimize": case_minimize, "maximize": case_minimize, "lbfgsb": case_lbfgsb, "ls": case_ls,
 }
 
@@ -1503,6 +1595,83 @@ def metas(ctx):
                     "tol": 1e-8, "maxit": 200.0, "cuqiarray": False,
                     "history": hm if hm["mode"] == "repeat" else {"mode": "reassign", "attrs": ["x0", "method", "loss", "tol", "maxit"],
                                                                   "first": {"x0": [1, 1], "method": "dogbox", "loss": "soft_l1", "tol": 1e-3, "maxit": 5}}})
+    # ---- LM, two unknowns: step-by-step trace against the model (Cramer solve; |g_0| certified) ----
+    for k, lr in itertools.product([-5, 0, 5], [-3, 3] if not ctx.thorough else [-10, -3, 3]):
+        sg = 2.0 ** k
+        out.append({"op": "lm_trace2", "p": {"a": 10, "b": 1, "c": 0, "d": 0, "sigma": sg}, "x0": rng.choice([[-1.25, 1.0], [0.5, -0.5], [2.0, -1.0]]),
+                    "nu0": 2.0 ** lr * sg * sg, "K": ctx.n(8, 20), "cell": "rosenbrock/sigma2^%d/rho2^%d" % (k, lr)})
+    for _ in range(ctx.n(2, 12)):
+        k = rng.choice([-5, 0, 5]); sg = 2.0 ** k; lr = rng.choice([-3, 3])
+        out.append({"op": "lm_trace2", "p": {"a": rng.randint(1, 10), "b": rng.randint(-2, 2), "c": rng.randint(0, 2), "d": rng.randint(-2, 2), "sigma": sg},
+                    "x0": [rng.randint(-4, 4) / 2, rng.randint(-4, 4) / 2], "nu0": 2.0 ** lr * sg * sg, "K": ctx.n(8, 20), "cell": "random/sigma2^%d/rho2^%d" % (k, lr)})
+    # three unknowns (n > 2), dense and sparse Jacobian, residual scale x relative floor; oracle: stationarity before or at maxit
+    for k, sparse in itertools.product([-5, 0, 5], [False, True]):
+        sg = 2.0 ** k
+        out.append({"op": "lm_conv3", "p": {"a": rng.randint(2, 10), "b": rng.randint(-1, 1), "c": rng.randint(0, 1), "d": rng.randint(-1, 1), "sigma": sg},
+                    "x0": [rng.randint(-2, 2) / 2, rng.randint(-2, 2) / 2, rng.randint(-2, 2) / 2], "nu0": 2.0 ** rng.choice([-10, -3, 3]) * sg * sg, "use_nu0": True,
+                    "sparse": sparse, "maxit": 5000, "gradtol": 1e-6, "must_converge": True, "rho_class": "harmless", "cell": "n3/%s/sigma2^%d" % ("sparse" if sparse else "dense", k)})
+    # LM with nu0 = 0 (falsy but legitimate: no floor at all)
+    out.append({"op": "lm_trace", "co": [[1.0, -1.0, 2.0], [0.0, 2.0, -1.0]], "x0": 1.5, "nu0": 0.0, "sparse": False, "sigma": 1.0, "K": ctx.n(10, 20), "cell": "nu0=0"})
+    # ---- memory layout / dtype of the inputs (Fortran order, strided views, integer arrays) ----
+    for form, layout in [("dense-F", None), ("dense-view", "view"), ("dense-int", "int")]:
+        for shape, shiftcell in [("over", "+"), ("under", "0")]:
+            me = gen_lsq_meta(rng, shape, shiftcell, "random", form)
+            if layout:
+                me["layout"] = layout
+            out.append(dict(me, op="cgls_iters", K=min(len(me["A"]), len(me["x0"])) + 1))
+            out.append(dict(me, op="cgls_solve", tol=1e-6, maxit=100, stopcell="tol1e-6"))
+        mp = gen_lsq_meta(rng, "over", "0", "random", form)
+        while len(mp["x0"]) < 2:
+            mp = gen_lsq_meta(rng, "over", "0", "random", form)
+        mp.update(P=gen_precond(rng, len(mp["x0"]), "general").astype(int).tolist(), pkind="general", pinv="explicit")
+        if layout:
+            mp["layout"] = layout
+        out.append(dict(mp, op="pcgls_solve", tol=1e-6, maxit=100))
+        mf = gen_lsq_meta(rng, "over", "0", "random", form)
+        Af = np.array(mf["A"], dtype=float)
+        mf.update(prox={"kind": "l1", "strength": 1, "direct": True}, proxcell="l1", adaptive=True, t=2.0 ** -int(np.ceil(np.log2(float(np.sum(Af * Af))))), stepcell="dyadic")
+        if layout:
+            mf["layout"] = layout
+        del mf["shift"]
+        out.append(dict(mf, op="fista_runs", K=5, abstol=0.0))
+    for _ in range(3):
+        xi = [float(rng.randint(-4, 4)) for _ in range(rng.randint(2, 5))]
+        out.append({"op": "prox_l1", "x": xi, "gamma": float(rng.randint(0, 2)), "cell": "int-dtype", "dtype": "int"})
+        out.append({"op": "nonneg", "x": xi, "cell": "int-dtype", "dtype": "int"})
+        out.append({"op": "box", "x": xi, "lo": None, "up": None, "cell": "int-dtype/none-none", "dtype": "int"})
+        out.append({"op": "box", "x": xi, "lo": -1.0, "up": 2.0, "cell": "int-dtype/scalar-scalar", "dtype": "int"})
+    # falsy but legitimate bounds: 0.0 given explicitly on either side, zero vectors
+    for lo, up, nm in [(0.0, None, "lower=0.0"), (None, 0.0, "upper=0.0"), (0.0, 0.0, "both=0.0"), ([0.0, 0.0, 0.0], None, "lower=zeros"), (-1.0, [0.0, 0.0, 0.0], "upper=zeros")]:
+        out.append({"op": "box", "x": [-2.5, 0.5, 2.5], "lo": lo, "up": up, "cell": "falsy/" + nm})
+    # ---- optional arguments omitted at every entry point (the documented defaults must be what the object then uses) ----
+    for form in ["dense", "fun"]:
+        me = gen_lsq_meta(rng, "over", "0", "random", form)
+        out.append(dict(me, op="cgls_solve", tol=1e-6, maxit=100, stopcell="defaults-omitted", omit=True))
+    mp = gen_lsq_meta(rng, "over", "0", "random", "dense")
+    while len(mp["x0"]) < 2:
+        mp = gen_lsq_meta(rng, "over", "0", "random", "dense")
+    mp.update(P=gen_precond(rng, len(mp["x0"]), "general").astype(int).tolist(), pkind="general/defaults-omitted", pinv="explicit")
+    out.append(dict(mp, op="pcgls_solve", tol=1e-6, maxit=100, omit=True))
+    for pk, pc in [({"kind": "l1", "strength": 1, "direct": True}, "l1"), ({"kind": "nonneg"}, "nonneg")]:
+        mf = gen_lsq_meta(rng, "over", "0", "random", "dense")
+        Af = np.array(mf["A"], dtype=float)
+        sA = 2.0 ** -int(np.ceil(np.log2(float(np.sum(Af * Af))) / 2))          # |A|_F <= 1 so that the default stepsize 1 is below 1/L
+        mf = scale_lsq(mf, sA, 1.0)
+        mf.update(prox=pk, proxcell=pc + "/defaults-omitted", adaptive=True, t=1.0, stepcell="default")
+        del mf["shift"]
+        out.append(dict(mf, op="fista_runs", K=5, abstol=1e-14, omit=True))
+    out.append({"op": "lm_conv1", "co": [[1.0, -1.0, 2.0], [0.0, 2.0, -1.0]], "x0": 1.5, "sparse": True, "maxit": 10000, "gradtol": 1e-8, "must_converge": True,
+                "rho_class": "harmless", "cell": "n1/defaults-omitted", "omit": True})
+    out.append({"op": "ls", "p": {"a": 2, "b": 1, "c": 1, "d": -1}, "x0": [1, -1], "method": "trf", "loss": "linear", "with_jac": "default", "tol": 1e-6, "maxit": 1e4, "cuqiarray": False})
+    # ---- exact-threshold sizes: PCGLS switches from the explicit inverse to sparse solves at dim == MAX_DIM_INV ----
+    for off in [0, 1]:
+        mp = gen_lsq_meta(rng, "over", "0", "random", "dense")
+        while len(mp["x0"]) < 2:
+            mp = gen_lsq_meta(rng, "over", "0", "random", "dense")
+        n_ = len(mp["x0"])
+        mp.update(P=gen_precond(rng, n_, "general").astype(int).tolist(), pkind="general/MAX_DIM_INV=dim%+d" % off, pinv="explicit" if off else "spsolve", max_dim_inv=n_ + off)
+        out.append(dict(mp, op="pcgls_solve", tol=1e-6, maxit=100))
+        out.append(dict(mp, op="pcgls_iters", K=n_ + 1))
     # ---- wrappers ----
     methods = [None, "BFGS", "L-BFGS-B", "CG", "SLSQP", "TNC", "Nelder-Mead", "Powell", "COBYLA"]
     for op, method, with_grad in itertools.product(["minimize", "maximize"], methods, [True, False]):
@@ -1571,10 +1740,12 @@ W_CGLS_NORMX = {"op": "cgls_solve", "A": [[1, 0], [0, 2], [1, 1]], "b": [2.0 ** 
                 "shape": "over", "start": "zero", "tol": 1e-6, "maxit": 100, "stopcell": "normx/witness"}
 W_PCGLS_NORMX = {"op": "pcgls_solve", "A": [[1, 0], [0, 2], [1, 1]], "b": [2.0 ** 30, 2.0 ** 31, 3 * 2.0 ** 30], "x0": [0, 0], "P": [[2, 0], [1, 1]],
                  "pkind": "triangular/normx-witness", "pinv": "explicit", "form": "dense", "shape": "over", "start": "zero", "shift": 0.0, "tol": 1e-6, "maxit": 100}
+W_LS_DEFAULT = {"op": "ls", "p": {"a": 2, "b": 1, "c": 1, "d": -1}, "x0": [1, -1], "method": "trf", "loss": "linear", "with_jac": "default", "tol": 1e-6, "maxit": 1e4,
+                "cuqiarray": False}
 W_LM_FLOOR = {"op": "lm_conv2", "p": {"a": 10, "b": 1, "c": 0, "d": 0, "sigma": 2.0 ** -10}, "x0": [-1.2, 1.0], "maxit": 10000, "gradtol": 1e-08,
               "must_converge": True, "rho_class": "floor-dominates", "cell": "n2/rosenbrock/sigma2^-10/default-nu0"}
 WITNESSES = {SIG["pcgls_shift"]: W_PCGLS_SHIFT, SIG["maximize_info"]: W_MAXIMIZE_INFO, SIG["minimize_nojac"]: W_MIN_NOJAC, SIG["lm_nan"]: W_LM_NAN,
-             SIG["lm_floor"]: W_LM_FLOOR, SIG["cgls_normx"]: W_CGLS_NORMX, SIG["pcgls_normx"]: W_PCGLS_NORMX}
+             SIG["lm_floor"]: W_LM_FLOOR, SIG["cgls_normx"]: W_CGLS_NORMX, SIG["pcgls_normx"]: W_PCGLS_NORMX, SIG["ls_default"]: W_LS_DEFAULT}
 
 
 def run(ctx):
@@ -1586,8 +1757,8 @@ def run(ctx):
         for me in [W_PCGLS_SHIFT, W_MAXIMIZE_INFO, W_MIN_NOJAC, W_LM_NAN, W_LM_FLOOR, W_CGLS_NORMX, W_PCGLS_NORMX] + metas(ctx):
             cases.append(build_case(me, _r.Random(int(hashlib.sha1(json.dumps(me, sort_keys=True, default=str).encode()).hexdigest()[:8], 16))))
     # the LM traces are the expensive terms (~0.3 s of rational arithmetic per LM step): spread them evenly over the shards
-    heavy = [c for c in cases if c.meta.get("op") == "lm_trace"]
-    light = [c for c in cases if c.meta.get("op") != "lm_trace"]
+    heavy = [c for c in cases if c.meta.get("op") in ("lm_trace", "lm_trace2")]
+    light = [c for c in cases if c.meta.get("op") not in ("lm_trace", "lm_trace2")]
     if heavy:
         every = max(1, len(light) // len(heavy))
         cases = []
@@ -1683,6 +1854,9 @@ def oracle(ctx, meta):
             return build_case(m, _r.Random(1)).impl_fail
         if op == "lm_trace":
             m.update(op="lm_conv1", maxit=5000, gradtol=1e-6, must_converge=True, use_nu0=True)
+            return build_case(m, _r.Random(1)).impl_fail
+        if op == "lm_trace2":
+            m.update(op="lm_conv2", maxit=5000, gradtol=1e-6, must_converge=True, use_nu0=True, rho_class="harmless")
             return build_case(m, _r.Random(1)).impl_fail
     return None
 
